@@ -292,6 +292,49 @@ theorem C12_generated_client_options_reach_server (ext : Go.Ext) (env : Env) (he
   obtain ⟨m, gl, hd, hl, hm⟩ := GenOptions.generated_any_order ext env he ext.fmtInt hc (GenSerialize.reqOf a) ys hys
   exact ⟨ys, hys, by rw [hs], m, gl, hd, hl, hm⟩
 
+/-- **… on the bytes of the wire.**  The server cuts the option text at ':' (`strings.Split(args[0], ":")[1:]`).  When the
+    request has at least one option and `fmt.Sprintf("%d", n)` never prints a ':' (it prints digits and a sign), cutting the
+    text the translated client wrote gives back exactly the rendered options, so the translated decoder applied to the cut
+    text arrives at the request. -/
+theorem C12_generated_client_options_on_the_wire (ext : Go.Ext) (env : Env) (he : GenOptions.ExtIs ext env)
+    (hc : IntCodec ext.fmtInt) (hperm : ∀ l, (ext.mapOrder l).Perm l) (hnocolon : ∀ n, COLON ∉ ext.fmtInt n)
+    (a : Gen.ClientArgs.Args) (hne : OptionOrder.optsOf (GenSerialize.reqOf a) ≠ []) :
+    ∃ m gl, Gen.Config.DeserializeOptions ext (splitOnByte COLON (Gen.ClientArgs.Args.SerializeOptions ext a).2)
+        = Outcome.ok (m, gl, none) ∧
+      GenOptions.ltxOf gl = (GenSerialize.reqOf a).ltx ∧
+      GenOptions.modesOfMap m = (a.Quiet, a.Plain, a.Serverless) := by
+  obtain ⟨ys, hys, hs, m, gl, hd, hl, hm⟩ := C12_generated_client_options_reach_server ext env he hc hperm a
+  refine ⟨m, gl, ?_, hl, hm⟩
+  have hyne : ys.map (OptionOrder.render ext.fmtInt) ≠ [] := by
+    intro h
+    have : ys = [] := by simpa using h
+    rw [this] at hys
+    exact hne (List.Perm.eq_nil hys.symm)
+  have hfree : ∀ x ∈ ys.map (OptionOrder.render ext.fmtInt), COLON ∉ x := by
+    intro x hx
+    obtain ⟨o, _, rfl⟩ := List.mem_map.1 hx
+    cases o with
+    | quiet => show COLON ∉ b!"quiet=true"; decide
+    | plain => show COLON ∉ b!"plain=true"; decide
+    | serverless => show COLON ∉ b!"serverless=true"; decide
+    | max n =>
+      show COLON ∉ b!"max=" ++ ext.fmtInt n
+      rw [List.mem_append]; intro h; rcases h with h | h
+      · revert h; decide
+      · exact hnocolon n h
+    | before n =>
+      show COLON ∉ b!"before=" ++ ext.fmtInt n
+      rw [List.mem_append]; intro h; rcases h with h | h
+      · revert h; decide
+      · exact hnocolon n h
+    | after n =>
+      show COLON ∉ b!"after=" ++ ext.fmtInt n
+      rw [List.mem_append]; intro h; rcases h with h | h
+      · revert h; decide
+      · exact hnocolon n h
+  rw [hs, splitOnByte_joinByte COLON _ hyne hfree]
+  exact hd
+
 /-- non-vacuity: quiet, max 5 and before 2, the map visited backwards -/
 example :
     let ext : Go.Ext := { parseFloat := fun _ => (0, none), mapOrder := List.reverse, fmtInt := fun n => if n = 5 then b!"5" else b!"2" }
